@@ -17,6 +17,10 @@ os.environ["VERIF_C05_FIXED"] = str(FIXED)      # the OCaml driver reads it
 FIXED5 = int(os.environ.get("VERIF_C05_FIXED_F5", "1"))
 os.environ["VERIF_C05_FIXED_F5"] = str(FIXED5)
 
+# 0 (default): the code without fix-F7 (a library node rooted in a tree that does not allow extensions is listed behind
+# the tree: finding C05-F7); 1: repaired code
+FIXED7 = int(os.environ.get("VERIF_C05_FIXED_F7", "1"))   # fix commit f2636f2 is in /repo
+
 # One representative of every kind of non-ASCII code point of the schema text class ("printable ASCII except
 # , [ ] { } plus every code point above 127") that some API treats specially.  Below 128 nothing else is in the
 # class (VT, FF, FS, GS, RS, DEL are refused by the compliance check and VT/FF/FS.. by XML itself).
@@ -275,6 +279,81 @@ def lf_lines(text, keepends=False):
         return parts
     out = [x + "\n" for x in parts[:-1]]
     return out + ([parts[-1]] if parts[-1] else [])
+
+
+def impl_rebuild(lines):
+    """The real SchemaLoaderWiki._read_schema on rows '***.. Tn' / root rows: the long names it builds.
+    lines = [(level, id)]; returns ["ok", [[ids of the long name] ...]] or ["exn", name]."""
+    from hed.schema.schema_io.wiki2schema import SchemaLoaderWiki
+    from hed.schema.hed_schema import HedSchema
+    ld = object.__new__(SchemaLoaderWiki)
+    ld._schema = HedSchema()
+    ld._schema.header_attributes = {"version": "8.3.0"}
+    ld.name = "stub"
+    ld.filename = None
+    ld.library = ""
+    ld._loading_merged = True
+    ld.appending_to_schema = False
+    ld.fatal_errors = []
+    rows = []
+    for i, (lvl, n) in enumerate(lines):
+        rows.append((i + 1, ("'''T%d'''" % n) if lvl == 0 else "*" * lvl + " T%d" % n))
+    try:
+        ld._read_schema(rows)
+    except Exception as e:  # noqa
+        return ["exn", exn_name(e)]
+    if ld.fatal_errors:
+        return ["exn", "HedFileError"]
+    return ["ok", [[int(c[1:]) for c in e.name.split("/")] for e in ld._schema.tags.all_entries]]
+
+
+def gen_tree_lines(rng):
+    """(level, id) lines: a random forest written parents-first, sometimes with one node moved behind a later
+    subtree (the shape of C05-F7) or a level that skips a generation."""
+    names = []
+    for i in range(rng.randint(1, 9)):
+        if names and rng.random() < 0.75:
+            p = rng.choice(names)
+            names.append(p + [i + 1])
+        else:
+            names.append([i + 1])
+    names.sort(key=lambda n: [names.index(n[:k + 1]) if n[:k + 1] in names else 0 for k in range(len(n))])
+    # depth-first order
+    order = []
+
+    def add(n):
+        order.append(n)
+        for m in names:
+            if len(m) == len(n) + 1 and m[:-1] == n:
+                add(m)
+    for n in names:
+        if len(n) == 1:
+            add(n)
+    x = rng.random()
+    if x < 0.3 and len(order) > 2:
+        k = rng.randrange(1, len(order))
+        moved = order.pop(k)
+        order.insert(rng.randrange(k, len(order) + 1), moved)
+    lines = [(len(n) - 1, n[-1]) for n in order]
+    if x > 0.9 and lines:
+        k = rng.randrange(len(lines))
+        lines[k] = (lines[k][0] + 2, lines[k][1])
+    return order, lines
+
+
+def impl_xml_name_text(is_tag, name):
+    """Text of the <name> element Schema2XML writes for a tag (_write_tag_entry) or another entry (_write_entry)."""
+    from xml.etree.ElementTree import Element
+    from hed.schema.schema_io.schema2xml import Schema2XML
+    from hed.schema.hed_schema_constants import HedSectionKey
+    w = Schema2XML()
+    w._strip_out_in_library = True
+    parent = Element("x")
+    if is_tag:
+        node = w._write_tag_entry(StubEntry(name, {}, None), parent, 1)
+    else:
+        node = w._write_entry(StubEntry(name, {}, None, section_key=HedSectionKey.Units), parent)
+    return node.find("name").text
 
 
 def impl_xml_name(text):
